@@ -20,6 +20,7 @@ import SophiaModel.Model.ParserGlue
 import SophiaModel.Model.ParserContract
 import SophiaModel.Gen.Regexes
 import SophiaModel.Gen.ParserWiring
+import SophiaModel.Gen.BackendClasses
 
 namespace SophiaProofs.C08
 open SophiaModel Re Backend
@@ -160,6 +161,9 @@ theorem glue_source_error (s : St) (st : Step) (rest : List Step) (h : s.script 
   rw [h]
   simp [hf]
 
+example : ∃ s st rest, s.script = st :: rest ∧ st.fails = true ∧ (trySome none s).1 = Out.sourceErr :=
+  ⟨⟨[⟨2, true⟩], 0⟩, ⟨2, true⟩, [], rfl, rfl, by decide⟩
+
 /-- an exhausted back-end gives `Ok(false)`, for ever -/
 theorem glue_end (sink : Option Nat) (n : Nat) : (trySome sink ⟨[], n⟩) = (Out.okFalse, ⟨[], n⟩) := rfl
 
@@ -245,6 +249,60 @@ theorem glue_run_faithful : ∀ (script : List Step) (d : Nat),
     simp only [ih]
 
 example : run none 5 ⟨[⟨1, false⟩, ⟨0, true⟩, ⟨2, true⟩], 7⟩ = [.okTrue, .sourceErr, .sourceErr, .okFalse, .okFalse] := by decide
+
+/-! #### jsonld/src/parser/source.rs `JsonLdQuadSource` (the JSON-LD parser's stream): same three facts -/
+
+theorem json_run_done (sink : Option Nat) (m d : Nat) : jsonRun sink m (.quads 0 d) = List.replicate m Out.okFalse := by
+  induction m with
+  | zero => rfl
+  | succ m ih => simp [jsonRun, jsonTry, ih, List.replicate_succ]
+
+theorem json_run_err_done (sink : Option Nat) (m : Nat) : jsonRun sink m (.err false) = List.replicate m Out.okFalse := by
+  induction m with
+  | zero => rfl
+  | succ m ih => simp [jsonRun, jsonTry, ih, List.replicate_succ]
+
+/-- all quads, one per call, a callback failure exactly where the callback failed, then `Ok(false)` for ever -/
+theorem json_run_quads (sink : Option Nat) : ∀ (n d m : Nat),
+    jsonRun sink (n + m) (.quads n d)
+      = (List.range n).map (fun i => if sink = some (d + i) then Out.sinkErr else Out.okTrue) ++ List.replicate m Out.okFalse := by
+  intro n
+  induction n with
+  | zero => intro d m; simp [json_run_done]
+  | succ n ih =>
+    intro d m
+    have : n + 1 + m = (n + m) + 1 := by omega
+    rw [this]
+    simp only [jsonRun, jsonTry, ih (d + 1) m, List.range_succ_eq_map, List.map_cons, List.map_map, Nat.add_zero, List.cons_append]
+    congr 2
+    apply List.map_congr_left
+    intro i _
+    simp [Function.comp, Nat.add_assoc, Nat.add_comm 1 i]
+
+/-- the error is reported once, as `SourceError`, whatever the callback; then `Ok(false)` for ever -/
+theorem json_run_err (sink : Option Nat) (m : Nat) :
+    jsonRun sink (m + 1) (.err true) = Out.sourceErr :: List.replicate m Out.okFalse := by
+  simp [jsonRun, jsonTry, json_run_err_done]
+
+theorem json_run_no_panic (sink : Option Nat) : ∀ (m : Nat) (s : JsonSrc), Out.panic ∉ jsonRun sink m s := by
+  intro m
+  induction m with
+  | zero => intro s; simp [jsonRun]
+  | succ m ih =>
+    intro s
+    cases s with
+    | quads l d =>
+      cases l with
+      | zero => simp only [jsonRun, jsonTry]; intro h; rcases List.mem_cons.1 h with h | h; exact absurd h (by decide); exact ih _ h
+      | succ l =>
+        simp only [jsonRun, jsonTry]; intro h; rcases List.mem_cons.1 h with h | h
+        · split at h <;> exact absurd h (by decide)
+        · exact ih _ h
+    | err p =>
+      cases p <;> (simp only [jsonRun, jsonTry]; intro h; rcases List.mem_cons.1 h with h | h; exact absurd h (by decide); exact ih _ h)
+
+example : jsonRun (some 1) 5 (.quads 3 0) = [.okTrue, .sinkErr, .okTrue, .okFalse, .okFalse] := by decide
+example : jsonRun (some 0) 3 (.err true) = [.sourceErr, .okFalse, .okFalse] := by decide
 end Glue
 
 /-! ### the contract over the function the driver executes -/
@@ -323,7 +381,8 @@ end Contract
 open SophiaModel.Gen.ParserWiring in
 /-- The validators are `REGEX.is_match` and nothing else; `new_unchecked` validates in debug builds only and that is
 the only place where debug and release differ; each rio accessor re-validates with the validator `specOf` demands
-(`iri` → `IriRef`: the accessor itself does not demand "absolute", the property does).  A change of any of these
+(`iri` → `IriRef`: the accessor itself does not demand "absolute", the property does); `LanguageTag::new_unchecked`
+is `assert!(LANG_TAG.is_match(tag))` — the same regex as `LanguageTag::new`, in every build.  A change of any of these
 in /repo regenerates the table and fails THIS obligation: the inclusion theorems would otherwise keep holding
 about regexes that no longer decide validity. -/
 theorem wiring_as_modelled :
@@ -331,7 +390,145 @@ theorem wiring_as_modelled :
     ∧ iriRefNewIsValid = true ∧ uncheckedValidatesInDebugOnly = true ∧ debugAssertionSites = 1
     ∧ accessorValidators = [("iri", "IriRef"), ("bnode_id", "BnodeId"), ("variable", "VarName"), ("datatype", "Iri"),
         ("language_tag", "LanguageTag")]
-    ∧ modelUncheckedCalls = 5 := by decide
+    ∧ modelUncheckedCalls = 5 ∧ langUnchecked = "assert" := by decide
+
+/-! ### the hand models' character classes are the ones of the sources cargo compiles
+
+`Gen/BackendClasses.lean` is regenerated (tools/extractors/c08.py) from the `matches!` arms of rio_turtle's
+`is_possible_pn_chars_*_unicode`, oxiri's `is_(i)unreserved_or_sub_delims` and query loop, rio_xml's `is_name_(start_)char`
+and oxilangtag's `GRANDFATHEREDS`, in the crate versions /repo/Cargo.lock pins, read from the cargo registry.  Each class
+of `Model/Backend.lean` denotes the same set.  What stays hand-transcribed (tied by the `tok` differential only) is the
+control structure around the classes: label / tag state machines, oxiri's component order, the IPv6 production. -/
+section Classes
+open SophiaModel.Gen.BackendClasses
+
+/-- `cargo` compiles exactly the crate versions the hand models were transcribed from -/
+theorem backend_versions_as_transcribed :
+    versions = [("rio_turtle", "0.8.6"), ("oxiri", "0.2.11"), ("oxilangtag", "0.1.6"), ("rio_xml", "0.8.6")]
+    ∧ rioPnCharsUIsBaseOrUnderscore = true ∧ rioPnCharsIsUOrExtra = true ∧ xmlNameCharIsStartOrExtra = true := by decide
+
+theorem rio_pn_chars_base_as_source : ∀ w, Matches pnCharsBase w ↔ Matches (.cls rioPnCharsBase) w :=
+  decideEquiv_sound _ _ (by native_decide)
+theorem rio_pn_chars_u_as_source : ∀ w, Matches pnCharsU w ↔ Matches (.cls (rioPnCharsBase ++ [(95, 95)])) w :=
+  decideEquiv_sound _ _ (by native_decide)
+theorem rio_pn_chars_as_source :
+    ∀ w, Matches pnChars w ↔ Matches (.cls (rioPnCharsBase ++ [(95, 95)] ++ rioPnCharsExtra)) w :=
+  decideEquiv_sound _ _ (by native_decide)
+theorem oxiri_ius_as_source : ∀ w, Matches Oxiri.ius w ↔ Matches (.cls oxiriIus) w :=
+  decideEquiv_sound _ _ (by native_decide)
+theorem oxiri_us_as_source : ∀ w, Matches Oxiri.us w ↔ Matches (.cls oxiriUs) w :=
+  decideEquiv_sound _ _ (by native_decide)
+/-- one step of oxiri's query loop: a code point of the class, or a `%HH` escape -/
+theorem oxiri_query_as_source :
+    ∀ w, Matches Oxiri.query w ↔ Matches (.star (.alt (.cls (oxiriIus ++ oxiriQueryExtra)) Oxiri.pct)) w :=
+  decideEquiv_sound _ _ (by native_decide)
+theorem xml_name_start_as_source : ∀ w, Matches (.alt ncStart (chr ':')) w ↔ Matches (.cls xmlNameStart) w :=
+  decideEquiv_sound _ _ (by native_decide)
+theorem xml_name_char_as_source :
+    ∀ w, Matches (alts [ncCharNoDot, chr '.', chr ':']) w ↔ Matches (.cls (xmlNameStart ++ xmlNameExtra)) w :=
+  decideEquiv_sound _ _ (by native_decide)
+/-- oxilangtag compares ignoring ASCII case; the model works on the lower-cased tag -/
+theorem grandfathered_as_source :
+    ∀ w, Matches Backend.grandfathered w ↔ Matches (alts (SophiaModel.Gen.BackendClasses.grandfathered.map (fun s => lit s.toLower))) w :=
+  decideEquiv_sound _ _ (by native_decide)
+
+example : Matches (.cls rioPnCharsBase) [0xE9] ∧ ¬ Matches (.cls rioPnCharsBase) [0xD7] := by decide
+end Classes
+
+/-! ### the accessor layer: what a caller gets when it reads a yielded term, in debug and in release builds
+
+`access debug syn c out` (Model/ParserContract.lean) reads the validator each accessor asserts from the table
+regenerated from /repo, so these theorems are about the wiring that exists, and the driver answers `acc=` with the
+same function (compared with the real accessors on every `tok` request). -/
+section Access
+open SophiaModel.ParserContract
+
+/-- the validator each accessor asserts is at least as wide as the one the property demands of the class -/
+theorem demanded_sub_asserted (syn : String) (c : Cls) :
+    ∃ v, (Gen.ParserWiring.accessorValidators.lookup c.accessor).bind validatorByName = some v
+      ∧ (c.safe = true → ∀ w, Matches (specOf syn c).validator w → Matches v w) := by
+  cases c <;> first
+    | exact ⟨Gen.BNODE_ID, by decide, fun _ _ h => h⟩
+    | exact ⟨Gen.LANG_TAG, by decide, fun _ _ h => h⟩
+    | exact ⟨Gen.VARNAME, by decide, fun _ _ h => h⟩
+    | exact ⟨Gen.IRI_REGEX, by decide, fun _ _ h => h⟩
+    | exact ⟨Gen.IRI_REF_REGEX, by decide, fun _ _ h => h⟩
+    | exact ⟨Gen.IRI_REF_REGEX, by decide, fun hs => absurd hs (by decide)⟩
+    | (refine ⟨Gen.IRI_REF_REGEX, by decide, fun _ w h => ?_⟩
+       show Matches (.alt Gen.IRI_REGEX Gen.IRELATIVE_REF_REGEX) w
+       have h' : Matches (if strict syn then Gen.IRI_REGEX else Gen.IRI_REF_REGEX) w := h
+       cases hst : strict syn <;> rw [hst] at h'
+       · exact h'
+       · exact Matches.altL h')
+
+theorem access_safe_ok (syn : String) (c : Cls) (hs : c.safe = true) (debug : Bool) :
+    ∀ w, (specOf syn c).accept w = true → access debug syn c ((specOf syn c).out w) = .ok := by
+  intro w ha
+  have hv := specOf_contract syn c hs w ha
+  obtain ⟨v, hl, hsub⟩ := demanded_sub_asserted syn c
+  have h1 : matchB v ((specOf syn c).out w) = true := (matchB_iff _ _).2 (hsub hs _ hv)
+  have h2 : matchB (specOf syn c).validator ((specOf syn c).out w) = true := (matchB_iff _ _).2 hv
+  unfold access
+  rw [hl]
+  simp [h1, h2]
+
+/-- for every class outside the safe list there is an accepted token whose term panics when read in a debug
+build and is handed out invalid, silently, in a release build -/
+theorem unsafe_debug_panic_release_invalid (c : Cls) (hu : c.safe = false) :
+    ∃ syn w, (specOf syn c).accept w = true ∧ access true syn c ((specOf syn c).out w) = .panic
+      ∧ access false syn c ((specOf syn c).out w) = .invalid := by
+  cases c with
+  | nodeid => exact ⟨"xml", ofStr "A.", by decide, by decide, by decide⟩
+  | iriGtrig => exact ⟨"gtrig", ofStr "a b", by decide, by decide, by decide⟩
+  | pname => exact ⟨"ttl", ofStr "%", by decide, by decide, by decide⟩
+  | pnameD => exact ⟨"ttl", ofStr "%", by decide, by decide, by decide⟩
+  | pnameDt => exact ⟨"gtrig", ofStr "a b", by decide, by decide, by decide⟩
+  | xmlns => exact ⟨"xml", ofStr "x y", by decide, by decide, by decide⟩
+  | bnode | lang | var | iriRef | iriAbs | dt | jsonldPred => exact absurd hu (by decide)
+
+/-- the safe list is exact -/
+theorem safe_is_exact (c : Cls) :
+    c.safe = true ↔
+      ∀ syn w debug, (specOf syn c).accept w = true → access debug syn c ((specOf syn c).out w) = .ok := by
+  constructor
+  · intro hs syn w debug; exact access_safe_ok syn c hs debug w
+  · intro h
+    cases hc : c.safe with
+    | true => rfl
+    | false =>
+      obtain ⟨syn, w, ha, hp, _⟩ := unsafe_debug_panic_release_invalid c hc
+      have := h syn w true ha
+      rw [hp] at this
+      cases this
+
+/-- release builds: only `LanguageTag::new_unchecked` can panic (it uses `assert!`) … -/
+theorem release_panics_only_lang (syn : String) (c : Cls) (out : List Nat) (hc : c ≠ .lang) :
+    access false syn c out ≠ .panic := by
+  obtain ⟨v, hl, _⟩ := demanded_sub_asserted syn c
+  unfold access
+  rw [hl]
+  have : (c.accessor == "language_tag") = false := by cases c <;> first | rfl | exact absurd rfl hc
+  by_cases hm : matchB (specOf syn c).validator out = true <;> simp [this, hm]
+
+/-- … and it does, in every build, on a tag `LANG_TAG` rejects -/
+theorem lang_unchecked_panics_in_release (syn : String) (debug : Bool) (out : List Nat) (h : ¬ Matches Gen.LANG_TAG out) :
+    access debug syn .lang out = .panic := by
+  have hm : matchB Gen.LANG_TAG out = false := by
+    cases hb : matchB Gen.LANG_TAG out with
+    | false => rfl
+    | true => exact absurd ((matchB_iff _ _).1 hb) h
+  have hl : (Gen.ParserWiring.accessorValidators.lookup Cls.lang.accessor).bind validatorByName = some Gen.LANG_TAG := by decide
+  have ha : (Cls.lang.accessor == "language_tag" && Gen.ParserWiring.langUnchecked == "assert") = true := by decide
+  unfold access
+  rw [hl]
+  simp [ha, hm]
+
+-- non-vacuity and the property's WHY clause on concrete tokens
+example : access true "nt" .iriAbs (ofStr "http://[::1]:/x") = .ok ∧ access false "nt" .iriAbs (ofStr "http://[::1]:/x") = .ok := by decide
+example : access true "xml" .xmlns (ofStr "rel/p") = .invalid := by decide   -- a relative IRI from a strict parser: no panic, not valid
+example : access false "ttl" .lang (ofStr "en--a") = .panic := by decide      -- `assert!`, release too
+example : ¬ Matches Gen.LANG_TAG (ofStr "en--a") := by decide
+end Access
 
 /-! ### non-vacuity: the hypotheses are satisfiable by the shapes the property names -/
 example : Matches rioBnode (ofStr "a.b-c.1") := by decide
